@@ -288,6 +288,12 @@ def run(prop, tier="quick", seed=0, replay=None, selftest=None):
     gen_ok, gen_msg = prop.pre_build()
     if not gen_ok:
         broken.append(f"translation:{gen_msg}")
+    # arithmetic kernels re-translated from /repo's source (harness/py2lean.py): Generated/PyK_<pid>.lean is rewritten,
+    # the committed Lemmas/PyKEq_<pid>.lean proves every kernel equal to the model definition the theorems are about
+    from . import py2lean
+    pyk_ok, pyk_msg, pyk_modules = py2lean.regen(pid, compat.REPO)      # takes the build lock itself while it writes
+    if not pyk_ok:
+        broken.append(f"translation:{pyk_msg}")
     drv_ok, drv_log = bridge.build(["PybropsModel.Drv.All", "AuditCmd"])
     if not drv_ok:
         print("driver/model build failed (harness error):\n" + drv_log)
@@ -301,6 +307,16 @@ def run(prop, tier="quick", seed=0, replay=None, selftest=None):
     else:
         broken.append(f"build:{prop.MODULE}")
         print(f"[{pid}] lake build {prop.MODULE} failed:\n{thm_log[-3000:]}")
+    pyk_failed = 0
+    for m in pyk_modules:
+        m_ok, m_log = bridge.build([m])
+        if m_ok:
+            theorems += bridge.audit(m)
+        else:
+            pyk_failed += 1
+            broken.append(f"build:{m}")
+            print(f"[{pid}] lake build {m} failed (a kernel translated from the source no longer equals the model):\n"
+                  + "\n".join(l for l in m_log.splitlines() if not l.startswith("trace:"))[-3000:])
     bad_ax = [(n, [a for a in axs if a not in bridge.ALLOWED_AXIOMS]) for n, axs in theorems]
     bad_ax = [(n, a) for n, a in bad_ax if a]
     for n, a in bad_ax:
@@ -309,7 +325,7 @@ def run(prop, tier="quick", seed=0, replay=None, selftest=None):
     if tokens:
         print(f"[{pid}] forbidden tokens in Lean sources: {tokens}")
         return 2
-    obligations = len(theorems) if thm_ok else max(1, len(theorems))
+    obligations = (len(theorems) if thm_ok else max(1, len(theorems))) + pyk_failed
     discharged = len(theorems) - len(bad_ax) if thm_ok else 0
 
     # ---- 2. correspondence + Spec on the implementation --------------------------------------
